@@ -455,6 +455,16 @@ func (e *Exec) initialGlobal(st *State, g *ssa.Global) Value {
 		e.stats.LazyGlobs[name]++
 		if a, ok := globalAlias[name]; ok {
 			name = a
+			// if the aliased package was initialised for real, use its actual value
+			if i := strings.LastIndex(a, "."); i > 0 && e.initPkgs[a[:i]] {
+				for _, p := range e.prog.AllPackages() {
+					if p.Pkg.Path() == a[:i] {
+						if tg := p.Var(a[i+1:]); tg != nil {
+							return e.load(st, Ptr{Obj: e.globalObj(st, tg)})
+						}
+					}
+				}
+			}
 		}
 		if types.Identical(t, errorType) {
 			return e.sentinelError(st, name)
